@@ -37,9 +37,9 @@ def rint(rng, cplx):
 
 
 def gen_W_case(rng, quick):
-    L = rng.randint(2, 4)
     d = rng.choice([2, 2, 3])
     finite = rng.random() < 0.75
+    L = rng.randint(2, 4 if d == 2 else 3) if finite else rng.randint(1, 2 if d == 3 else 3)
     markers = rng.random() < 0.7 or not finite
     cplx = rng.random() < 0.5
     if markers:
@@ -118,7 +118,8 @@ def gen_terms_case(rng, quick):
     from harness import c10_gen
     spec = rng.choice(SITES)
     finite = rng.random() < 0.75
-    L = rng.randint(2, 5 if c10_gen._site_dim(spec) == 2 else 4) if finite else rng.randint(1, 3)
+    dsite = c10_gen._site_dim(spec)
+    L = rng.randint(2, 5 if dsite == 2 else 3) if finite else rng.randint(1, 3 if dsite == 2 else 2)
     site = oc.make_site(spec)
     cplx = rng.random() < 0.4
     herm = rng.random() < 0.5
